@@ -205,9 +205,9 @@ def main(argv):
   if violations:
     seen = set()
     for sig, msg, path in violations:
-      print('  %s' % (msg if msg.startswith(sig) else sig + ': ' + msg)[:600])
       if sig not in seen:
         seen.add(sig)
+        print('  %s' % (msg if msg.startswith(sig) else sig + ': ' + msg)[:600])
         print('VIOLATION property=%s replay=%s' % (prop, path))
     return 1
   if total.evaluations == 0 or len(nontrivial) < 2:
